@@ -347,22 +347,44 @@ func c05(c *an.Ctx) {
 			return
 		}
 		o.Site(closeMax)
-		isMaxTest := func(b *ssa.BasicBlock) bool {
-			for _, g := range an.GuardsOf(b) {
-				bo, ok := g.Cond.(*ssa.BinOp)
-				if !ok || bo.Op != token.EQL || !g.Polarity {
-					continue
-				}
-				isLenArgs := func(x ssa.Value) bool {
-					call, ok := x.(*ssa.Call)
-					if !ok {
+		isLenArgs := func(x ssa.Value) bool {
+			call, ok := x.(*ssa.Call)
+			if !ok {
+				return false
+			}
+			bi, ok := call.Call.Value.(*ssa.Builtin)
+			return ok && bi.Name() == "len" && bgField(call.Call.Args[0], "args")
+		}
+		isMax := func(x ssa.Value) bool { return an.IsFieldAccess(x, "Func", "MaxSize") }
+		// impliesFull: v being true implies len(bg.args) == f.MaxSize - the comparison itself, or a
+		// boolean that was computed as `... && len(bg.args) == f.MaxSize` (a phi whose other
+		// edges are the constant false)
+		var impliesFull func(v ssa.Value, d int) bool
+		impliesFull = func(v ssa.Value, d int) bool {
+			if d > 4 {
+				return false
+			}
+			switch x := v.(type) {
+			case *ssa.BinOp:
+				return x.Op == token.EQL && ((isLenArgs(x.X) && isMax(x.Y)) || (isLenArgs(x.Y) && isMax(x.X)))
+			case *ssa.Phi:
+				some := false
+				for _, e := range x.Edges {
+					if cst, ok := e.(*ssa.Const); ok && cst.Value != nil && cst.Value.String() == "false" {
+						continue
+					}
+					if !impliesFull(e, d+1) {
 						return false
 					}
-					bi, ok := call.Call.Value.(*ssa.Builtin)
-					return ok && bi.Name() == "len" && bgField(call.Call.Args[0], "args")
+					some = true
 				}
-				isMax := func(x ssa.Value) bool { return an.IsFieldAccess(x, "Func", "MaxSize") }
-				if (isLenArgs(bo.X) && isMax(bo.Y)) || (isLenArgs(bo.Y) && isMax(bo.X)) {
+				return some
+			}
+			return false
+		}
+		isMaxTest := func(b *ssa.BasicBlock) bool {
+			for _, g := range an.GuardsOf(b) {
+				if g.Polarity && impliesFull(g.Cond, 0) {
 					return true
 				}
 			}
